@@ -30,7 +30,8 @@ func (dec *Decoder) checkUTF8String(buf []byte, off, utf16Length int) (int, int,
 	case 14:
 		off += 3
 	case 15:
-		if b&8 == 8 {
+		// a 4-byte character is a surrogate pair: it takes two UTF-16 units
+		if b&8 == 8 || utf16Length < 2 {
 			if dec.Error == nil {
 				dec.Error = ErrInvalidUTF8
 			}
@@ -61,11 +62,17 @@ func (dec *Decoder) fastReadStringAsBytes(utf16Length int) (data []byte) {
 }
 
 func (dec *Decoder) readStringAsBytes(utf16Length int) (data []byte, safe bool) {
+	if utf16Length < 0 {
+		if dec.Error == nil {
+			dec.Error = ErrInvalidLength
+		}
+		return nil, true
+	}
 	if (utf16Length == 0) || (dec.head == dec.tail) && !dec.loadMore() {
 		return nil, true
 	}
 	length := dec.tail - dec.head
-	if length >= utf16Length*3 {
+	if utf16Length <= length/3 {
 		return dec.fastReadStringAsBytes(utf16Length), false
 	}
 	for {
@@ -88,19 +95,27 @@ func (dec *Decoder) readStringAsBytes(utf16Length int) (data []byte, safe bool) 
 		}
 		if !safe {
 			safe = true
-			data = make([]byte, 0, utf16Length*3)
+			// the declared length comes off the wire: reserve what is loaded, append grows the rest
+			data = make([]byte, 0, length+len(dec.buf))
 		}
 		data = append(data, buf...)
-		if !dec.loadMore() {
-			if remains < 0 {
-				if dec.Error == nil {
-					dec.Error = ErrInvalidUTF8
-				}
+		// a character may straddle the end of the window: -remains of its bytes are still to
+		// come, possibly in more than one read
+		need := -remains
+		for {
+			if !dec.loadMore() {
+				return
 			}
-			return
+			n := dec.tail - dec.head
+			if n > need {
+				n = need
+			}
+			data = append(data, dec.buf[dec.head:dec.head+n]...)
+			dec.head += n
+			if need -= n; need == 0 {
+				break
+			}
 		}
-		data = append(data, dec.buf[dec.head:dec.head-remains]...)
-		dec.head -= remains
 		length = dec.tail - dec.head
 	}
 }
